@@ -6,6 +6,7 @@ import (
 	"sync/atomic"
 
 	"github.com/deepteams/webp/internal/dsp"
+	"github.com/deepteams/webp/internal/verifhook"
 )
 
 // parallelState holds pooled buffers for parallel encoding.
@@ -26,6 +27,7 @@ var parallelPool sync.Pool
 // getParallelState returns a pooled or new parallelState sized for the given dimensions.
 func getParallelState(numWorkers, mbW, mbH int, useDerr bool) *parallelState {
 	if v := parallelPool.Get(); v != nil {
+		verifhook.PoolHit("lossy.parallelState")
 		ps := v.(*parallelState)
 		// Check if existing state is large enough.
 		if len(ps.workers) >= numWorkers && len(ps.rs.rows) >= mbH && len(ps.topY) >= mbW*16 && len(ps.topNz) >= mbW {
@@ -93,6 +95,7 @@ func (rs *rowSync) waitFor(y int, needed int32) {
 	r.waiters.Add(1)
 	r.mu.Lock()
 	for r.done.Load() < needed {
+		verifhook.Ev("wslow", y, int(needed))
 		r.cond.Wait()
 	}
 	r.mu.Unlock()
@@ -105,6 +108,7 @@ func (rs *rowSync) waitFor(y int, needed int32) {
 func (rs *rowSync) signal(y int, done int32) {
 	r := &rs.rows[y]
 	r.done.Store(done)
+	verifhook.Ev("stored", y, int(done))
 	if r.waiters.Load() > 0 {
 		r.mu.Lock()
 		r.mu.Unlock()
@@ -229,6 +233,7 @@ func (enc *VP8Encoder) encodeFrameParallel(stats *ProbaStats) {
 				if y >= mbH {
 					return
 				}
+				verifhook.Ev("claim", y, 0)
 				enc.encodeRow(w, y, topY, topU, topV, topModes, topNz, topNzDC, rs)
 			}
 		}(&workers[wi])
@@ -303,8 +308,11 @@ func (enc *VP8Encoder) encodeRow(w *RowWorker, y int, topY, topU, topV, topModes
 			if waitX > int32(mbW) {
 				waitX = int32(mbW)
 			}
+			verifhook.Ev("wait_b", y-1, int(waitX))
 			rs.waitFor(y-1, waitX)
+			verifhook.Ev("wait_e", y-1, int(waitX))
 		}
+		verifhook.Ev("read_b", y, x)
 
 		// 1. Import source data.
 		importBlockParallel(enc, w, x, y)
@@ -325,13 +333,18 @@ func (enc *VP8Encoder) encodeRow(w *RowWorker, y int, topY, topU, topV, topModes
 		reconstructMBParallel(enc, w, x, y, info, seg)
 
 		// 7. Export: write back to planes and update context.
+		verifhook.Ev("read_e", y, x)
+		verifhook.Ev("write_b", y, x)
 		exportParallel(enc, w, x, y, topY, topU, topV, topModes, &leftY, &leftU, &leftV, &leftModes, &topLeftY, &topLeftU, &topLeftV, info)
 
 		// 8. Update NZ context for next MB / next row.
 		updateNZContextParallel(info, x, topNz, &leftNz, topNzDC, &leftNzDC)
 
 		// 9. Signal completion.
+		verifhook.Ev("write_e", y, x)
+		verifhook.Ev("sig_b", y, x+1)
 		rs.signal(y, int32(x+1))
+		verifhook.Ev("sig_e", y, x+1)
 	}
 }
 
@@ -1543,7 +1556,10 @@ func (enc *VP8Encoder) recordAllTokens(stats *ProbaStats) {
 			// before recording its tokens. This allows Phase B to overlap with
 			// Phase A workers still processing later rows.
 			if enc.parallelRS != nil {
+				verifhook.Ev("wait_b", it.Y, enc.mbW)
 				enc.parallelRS.waitFor(it.Y, int32(enc.mbW))
+				verifhook.Ev("wait_e", it.Y, enc.mbW)
+				verifhook.Ev("rec", it.Y, 0)
 			}
 			enc.leftNz = 0
 			enc.leftNzDC = 0
